@@ -188,7 +188,8 @@ def run_cfg(row: dict) -> dict:
     extra = 10.0 ** (-row["e"])
     dt = math.inf if row["dt"] >= INF_TENTHS else row["dt"] / 10.0
     kw: dict = dict(dt=10.0, precision=precision, extra_krylov_tolerance=extra, autosave_dt=dt, observables=obs,
-                    optimize_qubit_ordering=row["reorder"], solver=Solver.DMRG if row["solver"] == "dmrg" else Solver.TDVP,
+                    optimize_qubit_ordering=row["reorder"], # both documented spellings of the solver (the enum member and its string value), alternating over the rows
+                    solver=(row["solver"] if (row["p"] + row["e"] + len(row["obs"])) % 2 == 0 else (Solver.DMRG if row["solver"] == "dmrg" else Solver.TDVP)),
                     num_gpus_to_use=0, log_level=logging.CRITICAL)
     if nm is not None:
         kw["noise_model"] = nm
